@@ -48,6 +48,10 @@ def call(eng, node, st):
     if name is not None and name in st.env and isinstance(st.env[name], FunV):
         args = [eng.ev(a, st) for a in node.args]
         return eng.apply_fun(st.env[name], args, st)
+    if name == "sum" and len(node.args) == 1 and not eng.concrete:
+        cb = _count_below_shape(eng, node.args[0], st)
+        if cb is not None:
+            return cb
     if name in ("all", "any") and len(node.args) == 1 and isinstance(node.args[0], (ast.GeneratorExp, ast.ListComp)):
         return quant_genexp(eng, node.args[0], st, name == "all")
     if name in SIMPLE:
@@ -71,6 +75,29 @@ def call(eng, node, st):
             args = [eng.ev(a, st) for a in node.args]
             return eng.call_by_contract(q, args, st=st)
     raise Unsupported(f"call of {ast.dump(node.func)[:80]}")
+
+
+def _count_below_shape(eng, g, st):
+    """sum(1 for x in T if x < V) with T a tuple term: the number of entries of T below V, i.e. the
+    recursive spec function clt(T, V, len(T))  (same meaning as the filter encoding; chosen here because
+    contracts can speak about the same count under quantifiers)"""
+    if not (isinstance(g, ast.GeneratorExp) and len(g.generators) == 1 and isinstance(g.elt, ast.Constant) and g.elt.value == 1):
+        return None
+    gen = g.generators[0]
+    if len(gen.ifs) != 1 or not isinstance(gen.target, ast.Name) or not isinstance(gen.iter, ast.Name):
+        return None
+    cond = gen.ifs[0]
+    if not (isinstance(cond, ast.Compare) and len(cond.ops) == 1 and isinstance(cond.ops[0], ast.Lt)
+            and isinstance(cond.left, ast.Name) and cond.left.id == gen.target.id):
+        return None
+    if any(isinstance(n_, ast.Name) and n_.id == gen.target.id for n_ in ast.walk(cond.comparators[0])):
+        return None
+    src = st.env.get(gen.iter.id)
+    if not (isinstance(src, SeqV) and src.meta.get("tterm") is not None):
+        return None
+    bound = eng.ev(cond.comparators[0], st)
+    eng.rules_used.add("count-below (sum(1 for x in T if x < V) = clt(T, V, len T))")
+    return eng.count_below(src.meta["tterm"], bound)
 
 
 def call_starred(eng, node, st):
